@@ -18,11 +18,12 @@ META = {
     "level": "model_checking",
     "technique": "explicit-state BFS over event histories on the real HostKeys object (prefix replay, states merged "
                  "on the entry list), compared in every state with a reference known_hosts table",
-    "text": "Every known_hosts file of <=2 (quick) / <=3 (thorough) lines over a 12-line alphabet (plain, multi-host, "
-            "hashed, same-type other key, other type, [host]:port, comment, blank, malformed, unknown type) x every "
-            "history of <=2 / <=3 events (load again, add, delete, set via per-host view, save+reload) after the "
-            "first load: lookup()/check() equal the reference for 4 names x 3 keys, save+reload preserves lookups, "
-            "loading the same file again changes neither lookups, key lists nor saved text.",
+    "text": "Every known_hosts file of <=2 lines (quick; thorough adds all 3-line files) over a 12-line alphabet "
+            "(plain, multi-host, hashed, same-type other key, other type, [host]:port, comment, blank, malformed, "
+            "unknown type) x every history of <=2 events (thorough: <=3 on the <=2-line files) out of load again, "
+            "add, delete, set via per-host view, save+reload after the first load: lookup()/check() equal the "
+            "reference for 4 names x 3 keys, save+reload preserves lookups, loading the same file again changes "
+            "neither lookups, key lists nor saved text.",
     "note": "states whose saved text differs from the reference table (only reachable through a reported defect) "
             "are checked but not expanded; entries with key None (HostKeys.__setitem__ with an empty dict) and "
             "undecodable base64 are outside the space",
@@ -314,11 +315,13 @@ def run_chunk(item, acc):
 
 
 def bounds(tier):
-    return (2, 2) if tier == "quick" else (3, 3)
+    """-> list of (min_lines, max_lines, max events after the first load)"""
+    if tier == "quick":
+        return [(0, 2, 2)]
+    return [(0, 2, 3), (3, 3, 2)]
 
 
 def main(tier):
-    max_lines, depth = bounds(tier)
     ck = core.Check(
         PID, tier, "model_checking",
         "state = HostKeys entry list reached by a history on one file; every transition executes the real "
@@ -329,11 +332,15 @@ def main(tier):
          "mutators (add / del / per-host set) follow the implementation's documented behaviour in the reference; "
          "the property is judged on lookups, check(), save+reload and re-load only",
          "states merge on (entry list, only-loads-so-far flag): HostKeys behaviour depends on _entries only"])
-    files = list(enum.sequences(LINE_NAMES, max_lines))
-    items = [(depth, c) for c in enum.chunks(files, 256)]
+    items = []
+    nfiles = {}
+    for lo, hi, depth in bounds(tier):
+        files = list(enum.sequences(LINE_NAMES, hi, lo))
+        nfiles["%d-%d lines, <=%d events" % (lo, hi, depth)] = len(files)
+        items += [(depth, c) for c in enum.chunks(files, max(64, len(files) // 8))]
     ck.merge(core.pmap(items, run_chunk, init=core.unpin))
-    ck.extra["bound"] = {"tier": tier, "line_alphabet": LINE_NAMES, "max_lines": max_lines, "files": len(files),
-                         "events": EVENTS, "max_events_after_first_load": depth, "names_looked_up": UNIVERSE}
+    ck.extra["bound"] = {"tier": tier, "line_alphabet": LINE_NAMES, "files": nfiles,
+                         "events": EVENTS, "names_looked_up": UNIVERSE}
     ck.extra["frontier_left"] = ck.acc.counters.get("frontier_left_at_depth_cap", 0)
     return ck.finish()
 
